@@ -83,10 +83,11 @@ func (s *SubFS) Chtimes(path string, atime time.Time, mtime time.Time) error {
 }
 
 func (s *SubFS) Symlink(oldname, newname string) error {
-	return s.FS.Symlink(oldname, newname)
+	// the target is kept as given (a relative target is relative to the link's directory)
+	return s.FS.Symlink(oldname, filepath.Join(s.Root, newname))
 }
 func (s *SubFS) Link(oldname, newname string) error {
-	return s.FS.Link(oldname, newname)
+	return s.FS.Link(filepath.Join(s.Root, oldname), filepath.Join(s.Root, newname))
 }
 func (s *SubFS) Readlink(name string) (string, error) {
 	fullPath := filepath.Join(s.Root, name)
